@@ -574,14 +574,23 @@ namespace cds { namespace intrusive {
         {
             assert( iter != end());
 
-            marked_data_ptr val( iter.data());
-            if ( iter.m_pNode->data.compare_exchange_strong( val, marked_data_ptr(), memory_model::memory_order_acquire, atomics::memory_order_relaxed )) {
-                --m_ItemCounter;
-                retire_data( val.ptr());
-                m_Stat.onEraseSuccess();
-                return true;
+            marked_data_ptr const valIter( iter.data());
+            back_off bkoff;
+            while ( true ) {
+                marked_data_ptr val( valIter );
+                if ( iter.m_pNode->data.compare_exchange_strong( val, marked_data_ptr(), memory_model::memory_order_acquire, atomics::memory_order_relaxed )) {
+                    --m_ItemCounter;
+                    retire_data( val.ptr());
+                    m_Stat.onEraseSuccess();
+                    return true;
+                }
+                if ( val.ptr() != valIter.ptr())
+                    return false;   // the item has been deleted or replaced
+
+                // The data pointer is temporarily marked by a concurrent insertion
+                // of a neighbour item (see link_data()), the item is still in the list - retry
+                bkoff();
             }
-            return false;
         }
 
         /// Extracts the item from the list with specified \p key
